@@ -248,6 +248,11 @@ func (d *Dump) Short() string {
 func (w *World) dump() *Dump {
 	st := prunner.VerifDump(w.R)
 	d := &Dump{WaitLists: map[string][]int{}, ByPipeline: map[string][]int{}, ShuttingDown: st.IsShuttingDown, Defs: st.Defs, PersistPending: st.PersistPending}
+	for i, rd := range w.runnerDefs {
+		if rd == st.Defs {
+			d.Defs = w.Opts.Defs[i] // the definition in force, as configured
+		}
+	}
 	rel := func(t *time.Time) time.Duration {
 		if t == nil {
 			return nilDur
@@ -553,7 +558,47 @@ type WorldOpts struct {
 	LogDirPath   string
 }
 
+// copyDefs is a deep copy of a definition set
+func copyDefs(d *definition.PipelinesDef) *definition.PipelinesDef {
+	if d == nil {
+		return nil
+	}
+	c := &definition.PipelinesDef{Pipelines: definition.PipelinesMap{}}
+	for n, p := range d.Pipelines {
+		q := p
+		if p.QueueLimit != nil {
+			v := *p.QueueLimit
+			q.QueueLimit = &v
+		}
+		if p.Env != nil {
+			q.Env = map[string]string{}
+			for k, v := range p.Env {
+				q.Env[k] = v
+			}
+		}
+		q.Tasks = map[string]definition.TaskDef{}
+		for tn, t := range p.Tasks {
+			u := t
+			u.Script = append([]string(nil), t.Script...)
+			if t.Script != nil && len(t.Script) == 0 {
+				u.Script = []string{}
+			}
+			u.DependsOn = append([]string(nil), t.DependsOn...)
+			if t.Env != nil {
+				u.Env = map[string]string{}
+				for k, v := range t.Env {
+					u.Env[k] = v
+				}
+			}
+			q.Tasks[tn] = u
+		}
+		c.Pipelines[n] = q
+	}
+	return c
+}
+
 type World struct {
+	runnerDefs []*definition.PipelinesDef
 	S              *vsched.Sched
 	R              *prunner.PipelineRunner
 	Opts           WorldOpts
@@ -613,7 +658,13 @@ func NewWorld(opts WorldOpts) *World {
 		ost = nopOutputStore{}
 	}
 	w.S.Spawn("init", "init", func() {
-		r, err := prunner.NewPipelineRunner(w.Ctx, opts.Defs[0], w.createTaskRunner, st, ost)
+		// the runner gets its own deep copies of the definitions: what the harness keeps (and the oracles read) stays as
+		// configured even if production code writes into a slice or map it shares with the definition
+		w.runnerDefs = make([]*definition.PipelinesDef, len(opts.Defs))
+		for i, d := range opts.Defs {
+			w.runnerDefs[i] = copyDefs(d)
+		}
+		r, err := prunner.NewPipelineRunner(w.Ctx, w.runnerDefs[0], w.createTaskRunner, st, ost)
 		if err != nil {
 			w.initErr = err
 			return
@@ -786,7 +837,7 @@ func (w *World) Do(o Op) {
 		err := w.R.CancelJob(jobUUID(o.Job))
 		w.log(Event{Kind: EvApiRet, Detail: o.String(), Job: o.Job, Err: errClass(err)})
 	case "R":
-		w.R.ReplaceDefinitions(w.Opts.Defs[o.Def])
+		w.R.ReplaceDefinitions(w.runnerDefs[o.Def])
 		w.DefIdx = o.Def
 		w.log(Event{Kind: EvApiRet, Detail: o.String()})
 	case "Save":
